@@ -351,10 +351,39 @@ where T: Integer, for<'x> &'x T: IntOps<T> {
 
 impl<T> Ord for Ratio<T>
 where T: Integer, for<'x> &'x T: IntOps<T> {
+    // Exact comparison (no rounding, no overflow): compare the integral parts, 
+    // then recursively the reciprocals of the fractional parts.
     fn cmp(&self, other: &Self) -> cmp::Ordering {
-        let l = self.to_f64();
-        let r = other.to_f64();
-        l.total_cmp(&r)
+        fn div_mod_floor<T>(a: &T, b: &T) -> (T, T) // b > 0
+        where T: Integer, for<'x> &'x T: IntOps<T> {
+            let (q, r) = (a / b, a % b);
+            if r.is_negative() { 
+                (q - T::one(), r + b)
+            } else { 
+                (q, r)
+            }
+        }
+
+        fn cmp_frac<T>(a: &T, b: &T, c: &T, d: &T) -> cmp::Ordering // a/b <=> c/d with b, d > 0
+        where T: Integer, for<'x> &'x T: IntOps<T> {
+            if b == d { 
+                return a.cmp(c)
+            }
+
+            let (q0, r0) = div_mod_floor(a, b);
+            let (q1, r1) = div_mod_floor(c, d);
+
+            q0.cmp(&q1).then_with(|| 
+                match (r0.is_zero(), r1.is_zero()) { 
+                    (true,  true)  => cmp::Ordering::Equal,
+                    (true,  false) => cmp::Ordering::Less,
+                    (false, true)  => cmp::Ordering::Greater,
+                    (false, false) => cmp_frac(b, &r0, d, &r1).reverse() // r0/b <=> r1/d
+                }
+            )
+        }
+
+        cmp_frac(&self.numer, &self.denom, &other.numer, &other.denom)
     }
 }
 
